@@ -38,6 +38,9 @@ pub enum Batch {
     Failing { edits: Vec<Edit> },
     /// expands the text past 65,535 bytes: rejected in commit, model: no-op
     Overflow { at: usize },
+    /// many small expansions over a long text: the 65,535 limit is crossed in the middle of the edit list,
+    /// while the half-built buffer is still short; must be rejected as a whole, model: no-op
+    OverflowMany { every: usize, with: String },
 }
 
 #[derive(Clone, Debug, Serialize, Deserialize)]
@@ -171,7 +174,20 @@ impl Engine for EditSim {
         let mut rng = Rng::derive(seed, "editsim", run);
         let nrounds = 1 + rng.below(3);
         let mut rounds = vec![];
-        for _ in 0..nrounds {
+        let long_round = if rng.chance(1, 400) { Some(rng.below(nrounds)) } else { None };
+        for ri in 0..nrounds {
+            if long_round == Some(ri) {
+                let unit = ["a", "あ", "㍿"][rng.below(3)];
+                let n = 12_000 + rng.below(4_000);
+                let text: String = unit.repeat(n / unit.len().max(1) + 1);
+                let with = ["0123456789", "株式会社", "xxxxxxxxxxxxxxxxxxxxxxxxxxxxxxxx"][rng.below(3)].to_string();
+                let mut batches = vec![Batch::OverflowMany { every: 1 + rng.below(2), with }];
+                if rng.chance(1, 2) {
+                    batches.push(Batch::Apply { edits: vec![Edit { start: 0, end: unit.len(), with: "Z".into(), api: "ref".into() }] });
+                }
+                rounds.push(Round { text, batches });
+                continue;
+            }
             let text = gen_str(&mut rng, 1, 12);
             let mut cells: Vec<Cell> = vec![];
             {
@@ -395,6 +411,46 @@ pub fn execute_edit(case: &EditCase, stats: &mut Stats, work: &Path) -> Option<V
                     }
                     stats.inc("batch.failed_injected");
                 }
+                Batch::OverflowMany { every, with } => {
+                    let b = boundaries(&cur);
+                    let every = (*every).max(1);
+                    let r = catch(|| {
+                        buf.with_editor(|_b, mut ed| {
+                            let mut i = 0;
+                            while i + 1 < b.len() {
+                                ed.replace_ref(b[i]..b[i + 1], with.as_str());
+                                i += every;
+                            }
+                            Ok(ed)
+                        })
+                    });
+                    let mut grown = cur.len();
+                    {
+                        let mut i = 0;
+                        while i + 1 < b.len() {
+                            grown = grown + with.len() - (b[i + 1] - b[i]);
+                            i += every;
+                        }
+                    }
+                    match r {
+                        Err(p) => return viol("panic", &p.site, op, json!({"stage":"overflow-many-batch","message":p.msg})),
+                        Ok(Ok(())) => {
+                            if grown > 65_535 {
+                                return viol("failed-batch", "overflow-accepted", op, json!({"projected_bytes": grown, "current_bytes": buf.current().len()}));
+                            }
+                            // small enough to be legal: the model applies it as well
+                            let edits: Vec<Edit> = (0..b.len() - 1).step_by(every).map(|i| Edit { start: b[i], end: b[i + 1], with: with.clone(), api: "ref".into() }).collect();
+                            cells = apply_model(&cells, &edits);
+                        }
+                        Ok(Err(e)) => {
+                            if grown <= 65_535 {
+                                return viol("failed-batch", "apply-returned-error", op, json!({"error": format!("{}", e), "projected_bytes": grown}));
+                            }
+                            stats.inc("batch.overflow_many_rejected");
+                        }
+                    }
+                    stats.inc("batch.overflow_many");
+                }
                 Batch::Overflow { at } => {
                     if *at >= cur.len() || !cur.is_char_boundary(*at) {
                         stats.inc("skipped.batch_does_not_fit");
@@ -569,7 +625,17 @@ impl Engine for OffsetSim {
         let mut rng = Rng::derive(seed, "offsetsim/texts", run);
         let n = 2 + rng.below(6);
         let modes = ["A", "B", "C"];
-        let texts = (0..n).map(|_| (modes[rng.below(3)].to_string(), gen_text(&mut rng, &world.keys))).collect();
+        let mut texts: Vec<(String, String)> = (0..n).map(|_| (modes[rng.below(3)].to_string(), gen_text(&mut rng, &world.keys))).collect();
+        if rng.chance(1, 60) {
+            // long texts whose normalised form grows towards / past the 65,535 byte limit
+            let t = match rng.below(3) {
+                0 => crate::world::expanding_text(&mut rng),
+                1 => "㍿".repeat(4000 + rng.below(12_000)),
+                _ => format!("{}{}", gen_text(&mut rng, &world.keys), "Ａ１ｶﾞ".repeat(2000 + rng.below(2000))),
+            };
+            let at = rng.below(texts.len() + 1);
+            texts.insert(at, ("C".to_string(), t));
+        }
         OffsetCase { world, texts }
     }
     fn execute(&self, case: &OffsetCase, stats: &mut Stats, work: &Path) -> Option<Violation> {
